@@ -23,7 +23,7 @@ theorem decimal_casters_reject_yaml_ints :
     parseIntDecimal "0x10".toList = none ∧ parseIntDecimal "0o17".toList = none ∧
     parseIntDecimal "0b11".toList = none ∧ parseIntDecimal "1_000".toList = none := by decide
 
-/-! ## still falsified by the tree: the self-decoding numeric types (recorded findings `typed:*:{devicecount,bytes,nanocpus}`)
+/-! ## still falsified by the tree: the self-decoding numeric types (recorded findings `typed:*:{devicecount,bytes}`; `nanocpus` repaired in round 5: `Props/C08.lean: nanocpus_reads_like_toFloat`)
 
 Replayed on the real code by `corpus/C08/custom-*.json`. -/
 
